@@ -206,6 +206,7 @@ static std::string repeat(const std::string &s, size_t n) {
   return o;
 }
 
+#ifndef C18_NO_MAIN
 int main(int argc, char **argv) {
   return vh::run_main(
       argc, argv,
@@ -261,3 +262,4 @@ int main(int argc, char **argv) {
         g_to = g_chai->eval<std::function<std::string(const Boxed_Value &)>>("to_json");
       });
 }
+#endif
